@@ -20,6 +20,8 @@
 (***************************************************************************)
 EXTENDS Naturals, Integers, Sequences, FiniteSets, TLC
 
+SlackMs == 1000   \* scheduling slack granted to wall-clock deadlines on real threads (C17)
+
 MsgKindsM  == {"tell","ask","tellT","askT"}
 AskKindsM  == {"ask","askT"}
 TellKindsM == {"tell","tellT"}
@@ -183,10 +185,13 @@ OnOpEnd(mon, ev) ==
            B(ev.retry # (ev.res = "timeout"), "C10", "is_retryable disagrees with Timeout")
            \cup B(ev.res = "timeout" /\ ~timed, "C10", "Timeout from an op without timeout")
            \cup B(ev.res = "timeout" /\ timed /\ ev.now < dl, "C10", "Timeout before the deadline")
-           \cup B(ev.res = "timeout" /\ op.kind = "askT" /\ M.replied /\ M.repNow < dl,
+           \cup B(mon.strict /\ ev.res = "timeout" /\ op.kind = "askT" /\ M.replied /\ M.repNow < dl,
                   "C10", "Timeout although the reply was produced before the deadline")
-           \cup B(ev.res = "timeout" /\ timed /\ A.joined /\ A.joinedNow < dl,
+           \cup B(mon.strict /\ ev.res = "timeout" /\ timed /\ A.joined /\ A.joinedNow < dl,
                   "C10", "Timeout although the actor had ended before the deadline")
+           \* C17: on real threads (wall clock, milliseconds) a timed operation returns by its deadline plus scheduling slack
+           \cup B(~mon.strict /\ timed /\ ev.now > dl + SlackMs, "C17", "timed operation returned long after its deadline")
+           \cup B(~mon.strict /\ ev.res = "other", "C17", "operation failed with an unexpected error")
            \* C13
            \cup B(ev.res = "ok" /\ op.dls # <<>>, "C13", "dead letter recorded for a successful operation")
            \cup B(~isMsg /\ op.dls # <<>>, "C13", "dead letter recorded for stop/kill")
@@ -247,7 +252,8 @@ OnHEnter(mon, ev) ==
                 \cup B(mon.strict /\ A.killOld /\ ~ev.killed /\ ~A.runErr, "C04", "kill() had returned but on_stop got killed=false")
                 \cup B(mon.strict /\ A.killOld /\ ~ev.killed /\ ~A.runErr, "C06", "kill() had returned but on_stop got killed=false")
                 \cup B(clean /\ lost # {}, "C01", "accepted before stop()/last drop but not handled before on_stop")
-                \cup B(clean /\ ~A.stopReq /\ A.userStrong > 0, "C07", "actor stopped although referenced and never stopped/killed")
+                \* (needs the complete handle history, which only cooperative traces record)
+                \cup B(mon.strict /\ clean /\ ~A.stopReq /\ A.userStrong > 0, "C07", "actor stopped although referenced and never stopped/killed")
                 \cup B(A.runErr /\ ev.killed, "C08", "on_stop(killed=true) after an on_run error")
            m1 == UpdA(mon, a, [stopN |-> A.stopN + 1, stopKilled |-> ev.killed, inHook |-> "stop",
                                expectRun |-> FALSE])
@@ -500,6 +506,7 @@ InvC12(mon) == mon.crashed => mon.bad = {}
 InvC13(mon) == Holds(mon, "C13")
 InvC14(mon) == Holds(mon, "C14")
 InvC15(mon) == Holds(mon, "C15")
+InvC17(mon) == Holds(mon, "C17")
 InvC19(mon) == Holds(mon, "C19")
 InvC20(mon) == Holds(mon, "C20")
 InvAll(mon) == mon.bad = {}
